@@ -3,3 +3,5 @@ pub mod s2_chacha_block;
 pub mod hashes;
 pub mod s4_hash_stream;
 pub mod s3_hosts;
+pub mod arena;
+pub mod s5_mem;
